@@ -292,7 +292,7 @@ def judge_processor(paths: List[Path], site: Site, kind: str, j: Judged, loop_ok
     else:
         cap = V("capacity")
         consumed = NOW - start - C(16)
-        accepted = [start + C(16) + A * call(dv, consumed, cap) for dv in ("floordiv", "truediv", "div")]
+        accepted = [start + C(16) + A * call(dv, consumed, cap) for dv in ("floordiv", "truediv", "div", "int_truediv")]
         if not any(t == a for a in accepted):
             def all_terms_have_ahead(pp: Poly) -> bool:
                 return bool(pp.terms) and all(any(a == ("var", "ahead") and e == 1 for a, e in m) for m in pp.terms)
